@@ -10,7 +10,8 @@ METHODS = [b'GET', b'POST', b'PUT', b'DELETE', b'OPTIONS', b'HEAD', b'PATCH']
 HOSTS = [b'h.example', b'a.b.c.example.org', b'127.0.0.1', b'10.1.2.3', b'[::1]', b'[2001:db8::7]', b'xn--bcher-kva.example']
 PATHS = [b'/', b'/x', b'/a/b/c.html', b'/p?q=1&r=%20', b'/a%2Fb;c=d?e=f:g', b'/~u/@v/$w,x']
 HDR_NAMES = [b'X-A', b'User-Agent', b'Accept', b'X-Long-Header-Name', b'Cookie', b'X-B']
-HDR_VALUES = [b'1', b'a b  c', b'v:w:x', b'text/html, */*;q=0.8', b'k=v; k2="q, r"', b'\xc3\xa9t\xc3\xa9']
+HDR_VALUES = [b'1', b'a b  c', b'v:w:x', b'text/html, */*;q=0.8', b'k=v; k2="q, r"', b'\xc3\xa9t\xc3\xa9',
+              b'caf\xe9 \xff\xfe obs-text']        # field values may carry obs-text (RFC 7230 3.2.6): bytes that are not UTF-8
 CASINGS = [lambda n: n, lambda n: n.lower(), lambda n: n.upper(), lambda n: n.swapcase()]
 OWS = [(b' ', b''), (b'', b''), (b'  ', b' '), (b'\t', b'\t ')]
 TRAILING = [b'', b'X', b'\r\n', b'GET /next HT', b'GET /next HTTP/1.1\r\nHost: n\r\n\r\n', b'\x00\xff0\r\n\r\n']
